@@ -13,8 +13,6 @@ namespace Cfr
 
 structure BState (α : Type) where
   chance : List (Option Nat × List α) := []
-  /-- chance infoset labels seen on single-outcome chance nodes -/
-  chance1 : List Nat := []
   p1 : List PInfo := []
   p2 : List PInfo := []
   s1 : List (Nat × Nat) := []
@@ -38,7 +36,7 @@ def Prev.set (p : Prev) (one : Bool) (v : Option (Nat × Nat)) : Prev :=
   if one then { p with one := v } else { p with two := v }
 
 section
-variable {α : Type} [Zero α] [Add α] [Div α] [LT α] [DecidableLT α] [BEq α] [FloatLike α]
+variable {α : Type} [Zero α] [One α] [Add α] [Div α] [LT α] [DecidableLT α] [BEq α] [FloatLike α]
 
 /-- the chance-infoset step of `init_recurse` after the children are built -/
 def registerChance (info : Option Nat) (probs : List α) (kids : List (Node α)) (s : BState α) :
@@ -49,15 +47,16 @@ def registerChance (info : Option Nat) (probs : List α) (kids : List (Node α))
     match info with
     | none => .ok (k, s)
     | some l =>
-      if s.chance.any (fun e => e.1 == some l) then .error .probabilitiesNotEqual
-      else .ok (k, if s.chance1.contains l then s else { s with chance1 := s.chance1 ++ [l] })
+      -- a named infoset is registered (with the degenerate distribution) although the node is collapsed
+      match s.chance.find? (fun e => e.1 == some l) with
+      | some e => if e.2 == [1] then .ok (k, s) else .error .probabilitiesNotEqual
+      | none => .ok (k, { s with chance := s.chance ++ [(some l, [1])] })
   | _ =>
     let total := lsum probs
     let probs := probs.map (· / total)
     match info with
     | none => .ok (.chance s.chance.length kids, { s with chance := s.chance ++ [(none, probs)] })
     | some l =>
-      if s.chance1.contains l then .error .probabilitiesNotEqual else
       match s.chance.findIdx? (fun e => e.1 == some l) with
       | some i =>
         if (s.chance[i]?.map (·.2)) == some probs then .ok (.chance i kids, s)
